@@ -94,7 +94,7 @@ func rootState(l *lexer) stateFn {
 		l.emit(RuleDefine)
 	case r == ';':
 		l.emit(RuleEnd)
-	case r == ' ', r == '\t', r == '\n': //skip the space
+	case r == ' ', r == '\t', r == '\n', r == '\r': //skip the space (a line may end in CR LF)
 		l.ignore()
 	// case  alpha , identify
 	case r == '\'':
@@ -314,7 +314,7 @@ func CodeQuoteBegin(l *lexer) stateFn {
 	for {
 		// Skip spaces (U+0020) if any
 		r := l.peek()
-		for ; r == '\t' || r == '\n' || r == ' '; r = l.peek() {
+		for ; r == '\t' || r == '\n' || r == '\r' || r == ' '; r = l.peek() {
 			l.next()
 		}
 		if l.acceptWord("%}") {
@@ -514,7 +514,7 @@ func (l *lexer) acceptWord(word string) bool {
 			return false
 		}
 	}
-	if r = l.peek(); r != ' ' && r != '\t' && r != '\n' && r != eof &&
+	if r = l.peek(); r != ' ' && r != '\t' && r != '\n' && r != '\r' && r != eof &&
 		!strings.HasPrefix(l.input[l.end:], "//") && !strings.HasPrefix(l.input[l.end:], "/*") {
 		l.end, l.loc, l.prev = pos, loc, prev
 		return false
@@ -539,7 +539,7 @@ func (l *lexer) skipLayout() {
 				return
 			}
 		default:
-			if r := l.peek(); r != ' ' && r != '\t' && r != '\n' {
+			if r := l.peek(); r != ' ' && r != '\t' && r != '\n' && r != '\r' {
 				return
 			}
 			l.next()
